@@ -165,7 +165,7 @@ def check_files(chk, cfg, real, key):
         last[(s["cb"], s["name"])] = s          # a later save under the same name overwrites
     for (cbi, name), s in last.items():
         d = cfg["cbs"][cbi - 1]
-        fname = "m%s.pt" % ("initial" if name == -1 else name)
+        fname = real["fnames"].get(cbi, "m{}.pt").format("initial" if name == -1 else name)
         if os.path.basename(s["path"]) != fname or not os.path.exists(s["path"]):
             chk.violation(key + ":file-name", dict(cfg=cfg, expected=fname, got=s["path"]))
             continue
